@@ -426,7 +426,14 @@ def _sym(ctx: Ctx, fi: FuncInfo, e: ast.AST, env: Dict[str, tuple], b: str):
         hi = try_fold(e.slice.upper)[1] if e.slice.upper is not None else None
         return ('slice', lo, hi)
     if isinstance(e, ast.BinOp) and isinstance(e.op, ast.Add):
-        return ('concat', _sym(ctx, fi, e.left, env, b), _sym(ctx, fi, e.right, env, b))
+        x, y = _sym(ctx, fi, e.left, env, b), _sym(ctx, fi, e.right, env, b)
+        if x == ('empty',):
+            return y
+        if y == ('empty',):
+            return x
+        if x[0] == 'slice' and y[0] == 'slice' and x[2] is not None and x[2] == y[1]:
+            return ('slice', x[1], y[2])        # adjacent pieces of the branch list
+        return ('concat', x, y)
     if isinstance(e, ast.Call) and isinstance(e.func, ast.Name) and e.func.id == 'sorted' and e.args:
         rev = next((k.value for k in e.keywords if k.arg == 'reverse'), None)
         if rev is not None and try_fold(rev) != (True, False):
@@ -474,6 +481,8 @@ def r26(ctx: Ctx) -> RuleReport:
         v = _sym(ctx, fi, store.value, env, b)
         key = f'penman.layout:_rearrange: stored value when `{test}` is {pol}'
         good, k = False, None
+        if v[0] == 'sorted' and v[1] == ('empty',):
+            v = ('concat', ('empty',), v)
         if v[0] == 'concat' and v[2][0] == 'sorted':
             A, B = v[1], v[2][1]
             if A == ('empty',) and B in (('slice', 0, None),):
@@ -492,7 +501,8 @@ def r26(ctx: Ctx) -> RuleReport:
         if good and k == 0 and pol and "[0][0] == '/'" in test:
             good = False
             msg = 'a leading concept branch takes part in the sort: it can lose its first position'
-        rep.add(key, fi.loc(store), 'ok' if good else 'undecided', msg if not good else f'concat(b[:{k}], sorted(b[{k}:]))')
+        positive = not good and msg != f'{v}'          # a recognised shape with the wrong split point
+        rep.add(key, fi.loc(store), 'ok' if good else ('violation' if positive else 'undecided'), msg if not good else f'concat(b[:{k}], sorted(b[{k}:]))')
     # the sort is the builtin stable sort with the caller's key and default direction
     srt = [n for n in ast.walk(store.value) if isinstance(n, ast.Call) and isinstance(n.func, ast.Name) and n.func.id == 'sorted']
     keyp = fi.positional[1] if len(fi.positional) > 1 else 'key'
@@ -766,4 +776,52 @@ def r47(ctx: Ctx) -> RuleReport:
                 f'when `{tn}` is None the callee falls back to the graph\'s implicit top, i.e. the source of the first triple of '
                 f'the *sorted* copy: reconfigure(g, key=...) of a graph without an explicit top can change the top' if bad else
                 'the top is fixed before the triples are reordered')
+    return rep
+
+
+@rule('R67', 'a node-map entry is replaced by a fresh node only after the existing entry was looked at (a variable gets one node)')
+def r67(ctx: Ctx) -> RuleReport:
+    from ..resolve import view
+    rep = RuleReport('R67', r67.title, floor=2)
+    for fi in ctx.repo.module(L).functions.values():
+        v = None
+        for n in walk_local(fi.node):
+            if not (isinstance(n, ast.Assign) and isinstance(n.targets[0], ast.Subscript) and isinstance(n.targets[0].value, ast.Name)
+                    and 'nodemap' in n.targets[0].value.id and isinstance(n.value, ast.Tuple) and len(n.value.elts) == 2
+                    and isinstance(n.value.elts[1], ast.List) and not n.value.elts[1].elts
+                    and norm(n.value.elts[0]) == norm(n.targets[0].slice)):
+                continue
+            nm, k = n.targets[0].value.id, norm(n.targets[0].slice)
+            v = v or view(ctx, fi)
+            key = f'{fi.module.name}:{fi.qualname}: {norm(n)}'
+            # a map created in this function with every entry None holds no node yet
+            fresh = any(isinstance(x, ast.DictComp) and isinstance(x.value, ast.Constant) and x.value.value is None
+                        for val in ctx.cg.local_assigns(fi).get(nm, []) if isinstance(val, ast.AST) for x in [val])
+            if fresh:
+                rep.ok(key, fi.loc(n), 'the map was just created with no nodes in it')
+                continue
+
+            def reads(nd) -> bool:
+                if nd.ast is None or nd.ast is n:
+                    return False
+                root = nd.ast
+                if nd.kind in ('for', 'while', 'loophead') or isinstance(root, (ast.For, ast.While, ast.If, ast.FunctionDef)):
+                    root = getattr(root, 'test', None) or getattr(root, 'iter', None)
+                    if root is None:
+                        return False
+                for x in ast.walk(root):
+                    if isinstance(x, ast.Subscript) and isinstance(x.ctx, ast.Load) and norm(x.value) == nm and norm(x.slice) == k:
+                        return True
+                    if isinstance(x, ast.Call) and isinstance(x.func, ast.Attribute) and x.func.attr == 'get' and norm(x.func.value) == nm \
+                            and x.args and norm(x.args[0]) == k:
+                        return True
+                return False
+            sn = v.cfg.node_of(n)
+            path = v.cfg.path_avoiding([(v.cfg.entry, None)], {sn}, reads)
+            # path_avoiding stops at the first target; a loop may bring us back, so also start from the loop heads
+            rep.add(key, fi.loc(n), 'violation' if path else 'ok',
+                    f'`{norm(n)}` can run without `{nm}[{k}]` having been read first ('
+                    + ' -> '.join(repr(v.cfg.nodes[p]) for p in path[-4:])[:200] +
+                    f'): when {k} already has a node, a second node is opened for it and the variable is defined twice in the text, '
+                    f'so the encoded graph decodes with an extra instance triple' if path else 'the existing entry is read on every path to the store')
     return rep
